@@ -362,6 +362,13 @@ fn main() {
                     eprintln!("harness error: {}", fail.msgs[0]);
                 }
                 stats.label(&format!("foreign:{clause}"));
+                if let Some(dir) = std::env::var_os("VERIF_DUMP_FOREIGN") {
+                    // (debugging aid: what did another property's clause object to?)
+                    let _ = std::fs::create_dir_all(&dir);
+                    let body = serde_json::json!({ "property": sp.prop, "why": format!("[{clause}] after {}: {}", fail.act, fail.msgs[0]), "case": c });
+                    let text = serde_json::to_string(&body).unwrap_or_default();
+                    let _ = std::fs::write(std::path::Path::new(&dir).join(format!("{}-{clause}-{:016x}.json", sp.prop, vkit::fnv(text.as_bytes()))), text);
+                }
                 return Ok(());
             }
         };
@@ -499,6 +506,10 @@ fn main() {
                 Outcome::Held if stats.distinct_nontrivial() < 2 => Outcome::Inconclusive("generator produced no non-trivial case".into()),
                 o => o,
             };
+            let foreign = stats.labels_with_prefix("foreign:");
+            if !foreign.is_empty() {
+                println!("note: cases that ended unjudged because a clause owned by another property failed: {foreign:?} (VERIF_DUMP_FOREIGN=<dir> saves them)");
+            }
             vkit::finish(
                 Report {
                     prop: sp.prop,
